@@ -162,7 +162,7 @@ fn length_bomb(e: &mut Chooser) -> (Vec<u8>, Option<&'static str>, &'static str)
         0 => {
             m.extend([1, 0x6d, 0x7b, 1, 0]);
             put_uleb(&mut m, len);
-            native = Some(*e.pick(&["Vec<u8>", "ByteBuf", "Option<Vec<u8>>", "B8"]));
+            native = Some(*e.pick(&["Vec<u8>", "ByteBuf", "Option<Vec<u8>>", "B8", "B8T"]));
         }
         1 => {
             m.extend([0, 1, 0x71]);
@@ -185,10 +185,17 @@ fn length_bomb(e: &mut Chooser) -> (Vec<u8>, Option<&'static str>, &'static str)
             native = Some(*e.pick(&["Vec<u64>", "Vec<i64>", "Vec<f64>", "BU64"]));
         }
         5 => {
-            // nested: vec vec nat64 with one inner vector
-            m.extend([2, 0x6d, 1, 0x6d, 0x78, 1, 0, 1]);
-            put_uleb(&mut m, len);
-            native = Some("Vec<Vec<u64>>");
+            if e.below(2) == 0 {
+                // nested: vec vec nat64 with one inner vector
+                m.extend([2, 0x6d, 1, 0x6d, 0x78, 1, 0, 1]);
+                put_uleb(&mut m, len);
+                native = Some("Vec<Vec<u64>>");
+            } else {
+                // vec of non-primitive elements (blobs, texts): the outer count is hostile
+                m.extend([2, 0x6d, 1, 0x6d, 0x7b, 1, 0]);
+                put_uleb(&mut m, len);
+                native = Some(*e.pick(&["Vec<Vec<u8>>", "B8T", "B8E", "BAll", "BP", "Vec<String>"]));
+            }
         }
         6 => {
             m.extend([1, 0x6d, *e.pick(&[0x7eu8, 0x77]), 1, 0]);
@@ -530,7 +537,7 @@ impl Check for C06 {
                 }
                 let (b, c) = bomb_message(&mut e, cfg.decoding.is_some());
                 if e.bool() {
-                    let names = ["Vec<()>", "Vec<Reserved>", "Vec<u8>", "Vec<Vec<u8>>", "Reserved", "Option<Vec<u8>>", "BTreeMap<String, ()>", "B8"];
+                    let names = ["Vec<()>", "Vec<Reserved>", "Vec<u8>", "Vec<Vec<u8>>", "Reserved", "Option<Vec<u8>>", "BTreeMap<String, ()>", "B8", "B8T", "B8E", "BAll", "BP", "B0"];
                     let n = *e.pick(&names);
                     if let Some(i) = reg.iter().position(|o| o.name() == n) {
                         target = Some(Target::Native(i));
